@@ -138,7 +138,8 @@ def operator(signature, precedence, associativity, awaited=True, pure=True, toke
     def decorator(fn):
         Class.fn = fn
         Class.__name__ = fn.__name__
-        Class.return_type = typing.get_type_hints(fn).get("return")
+        # Operators without an annotation (e.g. '#x' or '@x' misused as a value) pass their operand through
+        Class.return_type = typing.get_type_hints(fn).get("return", int)
         return Class
 
     return decorator
